@@ -78,7 +78,7 @@ class C15(Check):
             variants = []
             for j in range(8):
                 style = ['min', 'full', 'extra', 'min', 'extra', 'min', 'min', 'extra'][j]
-                r = text.Renderer(rng, style=style, aliases=(j != 0), seps=True, spaces=(j not in (0, 1)))
+                r = text.Renderer(rng, style=style, aliases=(j != 0), seps=True, spaces=(j not in (0, 1)), units=(j in (3, 4, 7)))
                 head, semi = (j != 5), (j != 6)
                 variants.append({'text': r.text(f, head=head, semi=semi), 'fe': 'stl', 'style': style})
             if untimed:
